@@ -49,7 +49,8 @@ Record sinv (st : sstate) : Prop := mkSinv {
   si_known : forall c m, cache_get (s_cache st) c = Some m ->
                exists cd, find_class w c = Some cd /\ c_ok cd = true;
   si_seen_ix : s_seen st = w_modules w -> s_xsi st = E;
-  si_seen0 : s_seen st0 = w_modules w -> s_seen st = w_modules w }.
+  si_seen0 : s_seen st0 = w_modules w -> s_seen st = w_modules w;
+  si_unsup : forall c, In c (s_unsup st) -> ideal_build w c None = None }.
 
 (* thread-local knowledge that stays true: these classes are cached; the index is E *)
 Record kn := mkK { k_cached : list cid; k_ix : bool }.
@@ -76,7 +77,7 @@ Definition gained (K : kn) (st : sstate) (a : act) : kn :=
                    | None => K
                    end
   | ACacheSet c _ => mkK (c :: k_cached K) (k_ix K)
-  | ASeenRead => if N.eqb (s_seen st) (w_modules w) then mkK (k_cached K) true else K
+  | ASeenRead | ASeenReadAll => if N.eqb (s_seen st) (w_modules w) then mkK (k_cached K) true else K
   | AXsiPublish ix => if index_eqb ix E then mkK (k_cached K) true else K
   | _ => K
   end.
@@ -93,6 +94,8 @@ Proof.
     split; [exact H1|]. intros _. cbn. apply (si_seen_ix _ I). exact Es.
   - destruct (index_eqb ix E) eqn:Ei; [|split; assumption]. apply index_eqb_eq in Ei.
     split; [exact H1|]. intros _. cbn. exact Ei.
+  - destruct (N.eqb_spec (s_seen st) (w_modules w)) as [Es|_]; [|split; assumption].
+    split; [exact H1|]. intros _. cbn. apply (si_seen_ix _ I). exact Es.
 Qed.
 
 (* "from every state that satisfies the invariant and in which K holds, the program
@@ -120,17 +123,20 @@ Definition canonical (c : cid) (pns : ostr) : Prop :=
 Definition keeps (K K' : kn) : Prop := k_ix K = true -> k_ix K' = true.
 
 Lemma ok_get K c k r m :
-  In c (k_cached K) -> canon c = Some m ->
-  (forall K', keeps K K' -> ok K' (k (Some m)) r) -> ok K (m_get c k) r.
+  In c (k_cached K) -> canon c = Some m -> ok K (k (Some m)) r -> ok K (m_get c k) r.
 Proof.
   intros Hin Hc Hk. unfold m_get. apply ok_read; [reflexivity|]. intros st I [Hk1 Hk2]. cbn.
   destruct (cache_get (s_cache st) c) as [m'|] eqn:G.
-  - pose proof (si_cache _ I _ _ G) as Em. rewrite Hc in Em. inversion Em; subst. apply Hk. unfold keeps. auto.
+  - pose proof (si_cache _ I _ _ G) as Em. rewrite Hc in Em. inversion Em; subst. exact Hk.
   - exfalso. apply (Hk1 c Hin). exact G.
 Qed.
 
+(* the continuation of a build may rely on the class being cached from then on *)
 Lemma ok_build K c pns k r :
-  canonical c pns -> (forall K', keeps K K' -> ok K' (k (ideal_build w c pns)) r) -> ok K (m_build w c pns k) r.
+  canonical c pns ->
+  (forall K', keeps K K' -> (ideal_build w c pns <> None -> In c (k_cached K')) ->
+              ok K' (k (ideal_build w c pns)) r) ->
+  ok K (m_build w c pns k) r.
 Proof.
   intros Hcan Hk. unfold m_build. apply ok_read; [reflexivity|]. intros st I Hkn. cbn [do_act fst snd gained].
   destruct (cache_get (s_cache st) c) as [m|] eqn:G.
@@ -138,7 +144,7 @@ Proof.
     assert (Hi : ideal_build w c pns = Some (build_meta cd pns)) by (unfold ideal_build; rewrite Hf, Hok; reflexivity).
     pose proof (si_cache _ I _ _ G) as Hm. rewrite (Hcan _ Hi) in Hm. inversion Hm; subst m.
     apply ok_get with (m := build_meta cd pns); [left; reflexivity|apply Hcan; exact Hi|].
-    intros K' HK'. rewrite <- Hi. apply Hk. exact HK'.
+    rewrite <- Hi. apply Hk; [unfold keeps; auto|intros _; left; reflexivity].
   - destruct (ideal_build w c pns) as [m|] eqn:Hi.
     + constructor.
       * intros st1 I1 Hkn1. cbn [do_act fst]. split.
@@ -150,8 +156,9 @@ Proof.
            ++ intros c' m'. rewrite cache_get_set. destruct (N.eqb_spec c c') as [<-|_]; [eauto|apply I1].
         -- split; [|auto]. intros c' Hc'. cbn. rewrite cache_get_set. destruct (N.eqb c c'); [discriminate|exact Hc'].
       * intros st1 I1 Hkn1. cbn [do_act snd gained].
-        apply ok_get with (m := m); [left; reflexivity|apply Hcan; exact Hi|]. intros K' HK'. apply Hk. exact HK'.
-    + apply ok_read; [reflexivity|]. intros st1 I1 Hkn1. cbn. apply Hk. unfold keeps. auto.
+        apply ok_get with (m := m); [left; reflexivity|apply Hcan; exact Hi|].
+        apply Hk; [unfold keeps; auto|intros _; left; reflexivity].
+    + apply ok_read; [reflexivity|]. intros st1 I1 Hkn1. cbn. apply Hk; [unfold keeps; auto|congruence].
 Qed.
 
 Lemma ok_build_xsi K k r :
@@ -202,13 +209,87 @@ Lemma ok_fetch K c pns xt k r :
                  find (subclass_candidate w c) (ref_lookup E q) = Some s -> canonical s pns) ->
   (forall K', ok K' (k (ref_fetch w E c pns xt)) r) -> ok K (m_fetch w c pns xt k) r.
 Proof.
-  intros Hc Hs Hk. unfold m_fetch. apply ok_build; [exact Hc|]. intros K1 _. unfold ref_fetch in Hk.
+  intros Hc Hs Hk. unfold m_fetch. apply ok_build; [exact Hc|]. intros K1 _ _. unfold ref_fetch in Hk.
   destruct (ideal_build w c pns) as [m|] eqn:Hb; [|apply Hk].
   destruct (truthy xt) as [q|] eqn:Ht; [|apply Hk].
   destruct (ostr_eqb (m_tq m) (Some q)) eqn:Eq; [apply Hk|].
   apply ok_find_subclass. intros K2.
   destruct (find (subclass_candidate w c) (ref_lookup E q)) as [s|] eqn:Ef; [|apply Hk].
-  apply ok_build; [eapply Hs; eauto|]. intros K3 _. apply Hk.
+  apply ok_build; [eapply Hs; eauto|]. intros K3 _ _. apply Hk.
+Qed.
+
+(* ---- local_names_match, find_type_by_fields ---- *)
+Lemma ok_names_match K names c k r :
+  canonical c None ->
+  (forall K', keeps K K' -> (ideal_names_match w names c = true -> In c (k_cached K')) ->
+              ok K' (k (ideal_names_match w names c)) r) ->
+  ok K (m_names_match w names c k) r.
+Proof.
+  intros Hcan Hk. unfold m_names_match, ideal_names_match in *. apply ok_read; [reflexivity|].
+  intros st I Hkn. cbn [do_act fst snd gained].
+  destruct (memN c (s_unsup st)) eqn:Hu.
+  - apply memN_in in Hu. rewrite (si_unsup _ I _ Hu) in Hk. apply Hk; [unfold keeps; auto|discriminate].
+  - apply ok_build; [exact Hcan|]. intros K1 HK1 Hin1.
+    destruct (ideal_build w c None) as [m|] eqn:Hi.
+    + apply Hk; [exact HK1|]. intros _. apply Hin1. discriminate.
+    + destruct (find_class w c) as [cd|]; [|apply Hk; [exact HK1|discriminate]].
+      constructor.
+      * intros st1 I1 Hkn1. cbn [do_act fst]. split; [|split; auto].
+        constructor; cbn; try apply I1. intros c' Hc'.
+        destruct (memN c (s_unsup st1)); [apply (si_unsup _ I1); exact Hc'|].
+        apply in_app_or in Hc' as [Hc'|[<-|[]]]; [apply (si_unsup _ I1); exact Hc'|exact Hi].
+      * intros st1 I1 Hkn1. cbn [do_act snd gained]. apply Hk; [exact HK1|discriminate].
+Qed.
+
+Definition score (names : list str) (c : cid) : cid * (nat * str) :=
+  (c, (match ideal_build w c None with Some m => field_diff names m | None => O end, class_name w c)).
+
+Lemma ok_scan names l : forall K acc k r,
+  (forall c, In c l -> canonical c None) ->
+  (forall K', keeps K K' -> ok K' (k (acc ++ map (score names) (filter (ideal_names_match w names) l))) r) ->
+  ok K (m_scan w names l acc k) r.
+Proof.
+  induction l as [|c l IH]; intros K acc k r Hcan Hk; cbn [m_scan].
+  - cbn in Hk. rewrite app_nil_r in Hk. apply Hk. unfold keeps; auto.
+  - apply ok_names_match; [apply Hcan; left; reflexivity|]. intros K1 HK1 Hin1.
+    cbn [filter] in Hk. destruct (ideal_names_match w names c) eqn:Hn.
+    + assert (Hb : exists m, ideal_build w c None = Some m).
+      { unfold ideal_names_match in Hn. destruct (ideal_build w c None) as [m|]; [eauto|discriminate]. }
+      destruct Hb as [m Hb].
+      apply ok_read; [reflexivity|]. intros st I [Hk1 _]. cbn [do_act snd gained].
+      destruct (cache_get (s_cache st) c) as [m'|] eqn:G; [|exfalso; apply (Hk1 c (Hin1 eq_refl)); exact G].
+      pose proof (si_cache _ I _ _ G) as Em. rewrite (Hcan c (or_introl eq_refl) _ Hb) in Em. inversion Em; subst m'.
+      apply IH; [intros c' Hc'; apply Hcan; right; exact Hc'|]. intros K2 HK2.
+      rewrite <- app_assoc. cbn [map app] in Hk. unfold score at 1 in Hk. rewrite Hb in Hk.
+      apply Hk. unfold keeps in *. auto.
+    + apply IH; [intros c' Hc'; apply Hcan; right; exact Hc'|]. intros K2 HK2. apply Hk. unfold keeps in *. auto.
+Qed.
+
+Lemma ok_find_by_fields K names k r :
+  (forall c, In c (flat_map snd E) -> canonical c None) ->
+  (forall K', ok K' (k (ref_by_fields w E names)) r) -> ok K (m_find_by_fields w names k) r.
+Proof.
+  intros Hcan Hk. unfold m_find_by_fields.
+  assert (Hgo : forall K1, ok K1 (m_scan w names (flat_map snd E) [] (fun scored => k (min_by scored None))) r).
+  { intros K1. apply ok_scan; [exact Hcan|]. intros K2 _. cbn [app]. apply Hk. }
+  apply ok_read; [reflexivity|]. intros st I Hkn. cbn [do_act fst snd gained].
+  rewrite (N.eqb_sym (w_modules w) (s_seen st)).
+  destruct (N.eqb_spec (s_seen st) (w_modules w)) as [Es|Ens].
+  - rewrite (si_seen_ix _ I Es). apply Hgo.
+  - assert (HE : E = ideal_index w).
+    { unfold E, eff_index. destruct (N.eqb_spec (s_seen st0) (w_modules w)) as [E0|_]; [|reflexivity].
+      exfalso. apply Ens. apply (si_seen0 _ I). exact E0. }
+    constructor.
+    + intros st1 I1 Hkn1. cbn [do_act fst]. split.
+      * constructor; cbn; try apply I1. intros _. symmetry. exact HE.
+      * split; [auto|]. intros _. cbn. symmetry. exact HE.
+    + intros st1 I1 Hkn1. cbn [do_act snd gained].
+      assert (Hi : index_eqb (ideal_index w) E = true) by (apply index_eqb_eq; symmetry; exact HE). rewrite Hi.
+      constructor.
+      * intros st2 I2 [_ Hk2]. cbn [do_act fst]. split.
+        -- constructor; cbn; try apply I2; intros _; try reflexivity. apply Hk2. reflexivity.
+        -- split; auto.
+      * intros st2 I2 [_ Hk2]. cbn [do_act snd gained]. rewrite (Hk2 eq_refl). apply Hgo.
 Qed.
 
 (* ---- whole thread programs ---- *)
@@ -234,7 +315,7 @@ Proof.
       try (constructor; fail); destruct (Hr eq_refl) as [Hreq Hrest]; clear Hr.
     + apply ok_build.
       * intros m Hm. apply (Hreq (c, m)). cbn [call_reqs]. apply one_in. exact Hm.
-      * intros K' _. apply IH. exact Hrest.
+      * intros K' _ _. apply IH. exact Hrest.
     + apply ok_fetch.
       * intros m Hm. apply (Hreq (c, m)). cbn [call_reqs]. apply in_or_app. left. apply one_in. exact Hm.
       * intros m q s Hb Ht Eq Ef m' Hm'. apply (Hreq (s, m')). cbn [call_reqs]. apply in_or_app. right.
@@ -243,6 +324,13 @@ Proof.
     + apply ok_find_type. intros K'. apply IH. exact Hrest.
     + apply ok_find_types. intros K'. apply IH. exact Hrest.
     + apply ok_find_subclass. intros K'. apply IH. exact Hrest.
+    + apply ok_find_by_fields.
+      * intros c Hin m Hm. apply (Hreq (c, m)). cbn [call_reqs]. apply in_flat_map. exists c. split; [exact Hin|].
+        apply one_in. exact Hm.
+      * intros K'. apply IH. exact Hrest.
+    + apply ok_names_match.
+      * intros m Hm. apply (Hreq (c, m)). cbn [call_reqs]. apply one_in. exact Hm.
+      * intros K' _ _. apply IH. exact Hrest.
     + apply IH. exact Hrest.
 Qed.
 
@@ -361,7 +449,9 @@ Theorem context_safe w st0 progs sched :
   conc_run w st0 progs sched = map (ref_run w (eff_index w st0)) progs
   /\ map (solo_run w st0) progs = map (ref_run w (eff_index w st0)) progs.
 Proof.
-  unfold conc_guard. intros Hg. repeat (apply andb_true_iff in Hg as [Hg ?]).
+  unfold conc_guard. intros Hg.
+  apply andb_true_iff in Hg as [Hg Hcons]. apply andb_true_iff in Hg as [Hg Hunsup].
+  apply andb_true_iff in Hg as [Hworld Hknown].
   set (reqs := s_cache st0 ++ flat_map (ref_reqs w (eff_index w st0)) progs) in *.
   set (canon := first_build reqs).
   assert (Hcanon : forall c m, In (c, m) reqs -> canon c = Some m).
@@ -370,10 +460,12 @@ Proof.
   apply (conc_run_ref w canon st0).
   - constructor.
     + intros c m G. apply Hcanon. apply in_or_app. left. apply cache_get_in. exact G.
-    + intros c m G. apply cache_get_in in G. unfold cache_known in H0. rewrite forallb_forall in H0.
-      specialize (H0 _ G). cbn in H0. destruct (find_class w c) as [cd|]; [eauto|discriminate].
+    + intros c m G. apply cache_get_in in G. unfold cache_known in Hknown. rewrite forallb_forall in Hknown.
+      specialize (Hknown _ G). cbn in Hknown. destruct (find_class w c) as [cd|]; [eauto|discriminate].
     + intros Es. unfold E, eff_index. rewrite Es, N.eqb_refl. reflexivity.
     + auto.
+    + intros c Hin. unfold unsup_ok in Hunsup. rewrite forallb_forall in Hunsup. specialize (Hunsup _ Hin).
+      destruct (ideal_build w c None); [discriminate|reflexivity].
   - intros s Hin. apply reqs_ok_of. intros [c m] He. apply Hcanon. apply in_or_app. right.
     apply in_flat_map. exists s. split; assumption.
 Qed.
